@@ -348,6 +348,10 @@ func (p *PsUnpacker) parsePsm(rb []byte, index int) int {
 func (p *PsUnpacker) parseAvStream(code int, rtpts uint32, rb []byte, index int) int {
 	i := index
 
+	if len(rb) < i+2 {
+		return -1
+	}
+
 	// 注意，由于length是两字节，所以存在一个帧分成多个pes包的情况
 	length := int(bele.BeUint16(rb[i:]))
 	if length == 65535 {
@@ -361,9 +365,28 @@ func (p *PsUnpacker) parseAvStream(code int, rtpts uint32, rb []byte, index int)
 		return -1
 	}
 
+	if length < 3 {
+		// no room for the pes header, skip this pes packet
+		nazalog.Warnf("invalid pes packet. length=%d", length)
+		return 2 + length
+	}
+
 	ptsDtsFlag := rb[i+1] >> 6
 	phdl := int(rb[i+2]) // pes header data length
 	i += 3
+
+	needed := 0
+	if ptsDtsFlag&0x2 != 0 {
+		needed += 5
+	}
+	if ptsDtsFlag&0x1 != 0 {
+		needed += 5
+	}
+	if length < 3+phdl || phdl < needed {
+		// header data does not fit in the pes packet, or pts/dts do not fit in the header data, skip this pes packet
+		nazalog.Warnf("invalid pes packet. length=%d, phdl=%d, ptsDtsFlag=%d", length, phdl, ptsDtsFlag)
+		return 2 + length
+	}
 
 	var pts int64 = -1
 	var dts int64 = -1
